@@ -896,10 +896,9 @@ def get_charnos(node: ast.AST, source: str, keep_first_indent: bool = False) -> 
     if code and code[-1] == " ":
         whitespace = max(re.findall(r" *\Z$", code), key=len)
         end_charno -= len(whitespace)
-    if source[start_charno - 1] == "@" and isinstance(
-        node, (ast.ClassDef, ast.FunctionDef, ast.AsyncFunctionDef)
-    ):
-        start_charno -= 1
+    if isinstance(node, (ast.ClassDef, ast.FunctionDef, ast.AsyncFunctionDef)) and node.decorator_list:
+        # The first decorator's "@" may be separated from it by blanks or parentheses
+        start_charno = max(source.rfind("@", 0, start_charno), 0)
     if keep_first_indent:
         whitespace = max(re.findall(r" *\Z$", source[:start_charno]), key=len)
         start_charno -= len(whitespace)
